@@ -14,6 +14,19 @@ static void Leaf_Del(var self) { leaf_dead++; }
 static void Owner_Del(var self) { struct Owner* o = self; owner_dead++; if (o->leaf) del(o->leaf); }
 var Leaf = Cello(Leaf, Instance(New, Leaf_New, Leaf_Del));
 var Owner = Cello(Owner, Instance(New, NULL, Owner_Del));
+/* a long chain held only by its head: every link must survive every collection, however far from a root it is */
+static int node_dead = 0; static volatile int chain_bad = 0;
+struct Node { var next; int id; };
+static void Node_Del(var self) { node_dead++; }
+var Node = Cello(Node, Instance(New, NULL, Node_Del));
+static var chain_worker(var args) {
+  struct Node* head = new(Node); struct Node* tail = head;
+  for (int i = 1; i < 9000; i++) { struct Node* n = new(Node); n->id = i; tail->next = n; tail = n; }
+  for (int i = 0; i < 3000; i++) { new(Int, $I(i)); }       /* garbage, to force collections */
+  int dead_while_held = node_dead, n = 0;
+  for (struct Node* p = head; p && dead_while_held == 0 && n < 9000; p = p->next) n++;
+  chain_bad = dead_while_held; return NULL;
+}
 static var pairs_worker(var args) {
   for (int i = 0; i < 200; i++) { struct Owner* o = new(Owner); o->leaf = new(Leaf); }
   return NULL;       /* nothing deleted by hand: the thread's collector is torn down at thread exit */
@@ -25,6 +38,8 @@ int main(int argc, char** argv) {
   start(current(GC));
   printf("object deleted while the collector was stopped: finalised %d times\n", dead);
   if (dead != 1) { printf("REPRODUCED: del of a managed object while the collector is stopped did not finalise it\n"); return 1; }
+  { var t = new(Thread, $(Function, chain_worker)); call(t); join(t);
+    if (chain_bad) { printf("REPRODUCED: links of a 9000-link chain held by its head were finalised by a collection while still reachable\n"); return 1; } }
   { var t = new(Thread, $(Function, pairs_worker)); call(t); join(t);
     printf("worker made %d owner/leaf pairs; at teardown %d owners and %d leaves were finalised\n", leaf_made, owner_dead, leaf_dead);
     if (leaf_dead != leaf_made || owner_dead != leaf_made) { printf("REPRODUCED: %d of %d owned objects were never finalised (their owner was swept first and its destructor's del() only struck them from the pending list), %d finalised twice or more\n", leaf_made > leaf_dead ? leaf_made - leaf_dead : 0, leaf_made, leaf_dead > leaf_made ? leaf_dead - leaf_made : 0); return 1; } }
